@@ -1,5 +1,5 @@
 (* P_C18.v — property theorems for C18 only. *)
-From ZT Require Import Base Restore RestoreFacts.
+From ZT Require Import Base Restore RestoreFacts RestorePhases.
 
 (* For every subset and order of active features (each saving what it finds and restoring it in the finally clause of
    Runner.run) and every test phase that itself gives back what it found — whether it ends normally or by an exception —
@@ -20,3 +20,46 @@ Theorem C18_installed_value_visible : forall ws g f v, In (f, v) ws -> NoDup (ma
   gget (fst (install ws g)) f = v.
 Proof. exact install_get. Qed.
 Print Assumptions C18_installed_value_visible.
+
+(* The schedule the code really follows (global_setup of every feature, late_setup of every feature, the tests, early_teardown
+   of every feature in reverse, global_teardown of every feature in reverse; a write may be made in either set-up phase and undone in
+   either tear-down phase) with an ARBITRARY test phase — tests that change gc thresholds, trace hooks or warnings filters
+   themselves, ending normally or by an exception: every field an active feature manages is afterwards what it was before the run,
+   provided no two active features write the same field (evaluated on every case: bit 4). *)
+Theorem C18_managed_state_restored_whatever_tests_do : forall fs phase g f, disjoint_writes fs = true -> In f (fields3 fs) ->
+  gget (run3 fs phase g) f = gget g f.
+Proof. exact run3_managed_restored. Qed.
+Print Assumptions C18_managed_state_restored_whatever_tests_do.
+
+(* state no active feature manages is exactly what the tests left: the runner itself changes nothing else *)
+Theorem C18_other_state_untouched_by_the_runner : forall fs phase g f, ~ In f (fields3 fs) ->
+  gget (run3 fs phase g) f = gget (phase (during3 fs g)) f.
+Proof. exact run3_unmanaged_left_to_the_tests. Qed.
+Print Assumptions C18_other_state_untouched_by_the_runner.
+
+Theorem C18_schedule_restores : forall fs phase, disjoint_writes fs = true ->
+  (forall g f, ~ In f (fields3 fs) -> gget (phase g) f = gget g f) -> forall g, gequiv (run3 fs phase g) g.
+Proof. exact run3_restores. Qed.
+Print Assumptions C18_schedule_restores.
+
+Theorem C18_schedule_installed_value_visible : forall fs g w, disjoint_writes fs = true -> In w (concat fs) ->
+  gget (during3 fs g) (w_field w) = w_val w.
+Proof. exact during3_installed. Qed.
+Print Assumptions C18_schedule_installed_value_visible.
+
+(* nested brackets (a feature undone in the mirror image of its set-up): no disjointness needed, any test phase *)
+Theorem C18_bracketed_fields_restored_whatever_tests_do : forall fs phase g f, In f (managed fs) ->
+  gget (run2 fs phase g) f = gget g f.
+Proof. exact managed_fields_restored. Qed.
+Print Assumptions C18_bracketed_fields_restored_whatever_tests_do.
+
+(* history: run after run in one interpreter, each with its own options and tests *)
+Theorem C18_history_of_runs_restores : forall h,
+  Forall (fun rp => only_managed (fst rp) (snd rp)) h -> forall g, gequiv (runs h g) g.
+Proof. exact history_restores. Qed.
+Print Assumptions C18_history_of_runs_restores.
+
+Theorem C18_history_field_managed_in_every_run : forall h f,
+  Forall (fun rp => In f (managed (fst rp))) h -> forall g, gget (runs h g) f = gget g f.
+Proof. exact history_managed_everywhere. Qed.
+Print Assumptions C18_history_field_managed_in_every_run.
